@@ -16,6 +16,11 @@ use rssl::text::{Locate, LocateEnd, SourceManager};
 use rssl_preprocess::verif::{LexerError, LexerErrorReason, TokenStream};
 use std::cmp::Ordering;
 
+#[path = "c10_emit.rs"]
+mod emitx;
+#[path = "c10_files.rs"]
+mod filesx;
+
 // ------------------------------------------------------------------------------------------------
 // exact arithmetic reference (natural numbers, little-endian base 2^32)
 // ------------------------------------------------------------------------------------------------
@@ -428,6 +433,8 @@ struct Lexed {
     err: Option<Result<(String, u32), String>>,
     unlexed: Option<String>,
     whole: Option<String>,
+    /// the lexer diagnostic as the compiler prints it (`LexerError` through `MessagePrinter`), or the panic of printing it
+    rendered: Option<Result<String, String>>,
 }
 
 fn lex_real(text: &str, fl: &Flags) -> Lexed {
@@ -443,13 +450,17 @@ fn lex_real(text: &str, fl: &Flags) -> Lexed {
     }
     let mut raw: Vec<PreprocessToken> = Vec::new();
     let mut err = None;
+    let mut rendered = None;
     loop {
         if ts.end_of_stream() {
             break;
         }
         match guard(|| ts.next(fl.inc)) {
             Ok(Ok(t)) => raw.push(t),
-            Ok(Err(LexerError { reason, location })) => {
+            Ok(Err(e)) => {
+                use rssl::text::CompileErrorExt;
+                rendered = Some(guard(|| format!("{}", e.display(&sm))));
+                let LexerError { reason, location } = e;
                 err = Some(Ok((format!("{:?}", reason), location.get_raw().wrapping_sub(braw))));
                 let _ = LexerErrorReason::EndOfStream;
                 break;
@@ -504,7 +515,7 @@ fn lex_real(text: &str, fl: &Flags) -> Lexed {
     } else {
         None
     };
-    Lexed { toks, err, unlexed, whole }
+    Lexed { toks, err, unlexed, whole, rendered }
 }
 
 /// name of a panic site of TokenStream::next (the model uses the same names)
@@ -705,6 +716,31 @@ pub fn run_lex(text: &str, fl: &Flags, hist: &mut Hist) -> (String, String) {
     if let Some(w) = &lx.whole {
         if w != "same" {
             fails.push(w.clone());
+        }
+    }
+    // the diagnostic as printed: `<file>:<line>:<col>: error: <message>`, the source line, the caret — the position
+    // must be the line and column of the offset, inside the file
+    if let (Some(Ok((reason, off))), Some(r)) = (&lx.err, &lx.rendered) {
+        if *off <= n && text.is_char_boundary(*off as usize) {
+            let o = *off as usize;
+            let line = 1 + bytes[..o].iter().filter(|c| **c == b'\n').count();
+            let start = bytes[..o].iter().rposition(|c| *c == b'\n').map(|i| i + 1).unwrap_or(0);
+            let end = bytes[o..].iter().position(|c| *c == b'\n').map(|i| o + i).unwrap_or(bytes.len());
+            let col = o - start + 1;
+            match r {
+                Ok(t) => {
+                    let head = format!(":{}:{}: error: ", line, col);
+                    let tail = format!("\n{}\n{}^\n", &text[start..end], " ".repeat(col - 1));
+                    if !(t.starts_with(&head) && t.ends_with(&tail) && t.len() > head.len() + tail.len()) {
+                        fails.push(format!("diagnostic {} at offset {} is printed as {:?}, expected position {}:{}", reason, off, t, line, col));
+                    } else {
+                        hist.add("rendered_diagnostics_checked");
+                    }
+                }
+                Err(p) => fails.push(format!("printing the diagnostic {} at offset {} panics: {}", reason, off, p)),
+            }
+        } else if *off <= n {
+            fails.push(format!("diagnostic position {} is inside a multi-byte character", off));
         }
     }
     if fails.is_empty() {
@@ -1100,92 +1136,6 @@ fn gen_item(rng: &mut Rng, hist: &mut Hist) -> String {
     }
 }
 
-/// `C10.emit`: the literal inside a tiny function, compiled to HLSL; observation = the emitted statement
-pub fn run_emit(ty: &str, lit: &str) -> (String, String) {
-    let src = if ty == "-" {
-        format!("void f() {{ {}; }}\n", lit)
-    } else {
-        format!("void f(out {} r) {{ r = {}; }}\n", ty, lit)
-    };
-    let mut inc = MemFiles(vec![("main.rssl".to_string(), src)]);
-    let r = guard(|| {
-        rssl::compile(
-            rssl::CompileArgs::new("main.rssl", &mut inc, rssl::Target::HlslForDirectX).no_pipeline_mode(),
-        )
-    });
-    match r {
-        Err(p) => (format!("!panic {}", p), format!("FAIL:panic {}", p)),
-        Ok(Err(e)) => {
-            let msg = format!("{}", e);
-            // "or is rejected if it does not fit in 64 bits": a rejection for size must be justified
-            let orc = if msg.contains("integer literal is too large") {
-                match ref_numeric(lit.as_bytes()) {
-                    RefNum::Int { value, kind }
-                        if value.to_u64().is_some_and(|v| {
-                            !(kind == "IntS64" && v > i64::MAX as u64) && !(kind == "IntU32" && v > u32::MAX as u64)
-                        }) =>
-                    {
-                        format!("FAIL:emit integer literal {} fits in 64 bits but was rejected as too large", lit)
-                    }
-                    _ => "ok".to_string(),
-                }
-            } else {
-                "SKIP:rejected by the front end".to_string()
-            };
-            (format!("!error {}", one_line(&msg).chars().take(160).collect::<String>()), orc)
-        }
-        Ok(Ok(ps)) => {
-            let text: String = ps.iter().map(|p| String::from_utf8_lossy(&p.data).to_string()).collect();
-            let stmt = text
-                .lines()
-                .find(|l| l.trim_start().starts_with("r = ") || (ty == "-" && l.starts_with("    ")))
-                .map(|l| l.trim().to_string())
-                .unwrap_or_else(|| one_line(&text));
-            let printed = stmt.trim_start_matches("r = ").trim_end_matches(';').to_string();
-            (stmt, emit_oracle(lit, &printed))
-        }
-    }
-}
-
-/// "that value appears unchanged in the output": the emitted literal, read by the same reference grammar,
-/// must have the kind and the value of the source literal
-fn emit_oracle(lit: &str, printed: &str) -> String {
-    let a = ref_numeric(lit.as_bytes());
-    let b = ref_numeric(printed.as_bytes());
-    match (&a, &b) {
-        (RefNum::NotNumeric, _) => "SKIP:source text is not one numeric literal".into(),
-        (RefNum::Int { kind: k1, value: v1 }, RefNum::Int { kind: k2, value: v2 }) => {
-            if k1 != k2 {
-                format!("FAIL:emit int literal {} printed as {} (kind {} became {})", lit, printed, k1, k2)
-            } else if v1 != v2 {
-                format!("FAIL:emit {} literal {} printed as {}", k1, lit, printed)
-            } else {
-                "ok".into()
-            }
-        }
-        (RefNum::Float { kind: k1, bits64: b1 }, RefNum::Float { kind: k2, bits64: b2 }) => {
-            let narrow = |k: &str, b: u64| if k == "Float16" || k == "Float32" { ref_narrow32(b) as u64 } else { b };
-            if k1 != k2 {
-                format!("FAIL:emit float literal {} printed as {} (kind {} became {})", lit, printed, k1, k2)
-            } else if narrow(k1, *b1) != narrow(k2, *b2) {
-                format!(
-                    "FAIL:emit {} literal {} ({:x}) printed as {} ({:x})",
-                    k1, lit, narrow(k1, *b1), printed, narrow(k2, *b2)
-                )
-            } else {
-                "ok".into()
-            }
-        }
-        (RefNum::Float { kind, .. }, RefNum::Int { .. }) => {
-            format!("FAIL:emit {} literal {} printed as integer literal {}", kind, lit, printed)
-        }
-        (RefNum::Int { kind, .. }, RefNum::Float { .. }) => {
-            format!("FAIL:emit {} literal {} printed as float literal {}", kind, lit, printed)
-        }
-        (_, RefNum::NotNumeric) => format!("FAIL:emit literal {} printed as {} which is not a numeric literal", lit, printed),
-    }
-}
-
 fn emit(text: &str, fl: &Flags, out: &mut Out, hist: &mut Hist) {
     let (obs, oracle) = run_lex(text, fl, hist);
     out.case(
@@ -1216,7 +1166,25 @@ fn run_inner(args: &Args, out: &mut Out) {
         for line in lines {
             let f: Vec<&str> = line.split('\t').collect();
             if f.len() == 3 && f[0] == "C10.emit" {
-                let (obs, orc) = run_emit(f[1], f[2]);
+                let (obs, orc) = emitx::run_emit(f[1], f[2], &mut hist);
+                out.case(&line, &obs, &orc);
+                continue;
+            }
+            if f.len() == 5 && f[0] == "C10.fmt" {
+                let (obs, orc) = emitx::run_fmt(f[1], f[2], f[3], f[4], &mut hist);
+                out.case(&line, &obs, &orc);
+                continue;
+            }
+            if f.len() == 3 && f[0] == "C10.sweep32" {
+                let (obs, orc) = match (f[1].parse(), f[2].parse()) {
+                    (Ok(a), Ok(b)) => emitx::run_sweep32(a, b),
+                    _ => (String::new(), "SKIP:bad request".into()),
+                };
+                out.case(&line, &obs, &orc);
+                continue;
+            }
+            if f[0] == "C10.pp" || f[0] == "C10.loc" || f[0] == "C10.diag" {
+                let (obs, orc) = filesx::replay(&f, &mut hist);
                 out.case(&line, &obs, &orc);
                 continue;
             }
@@ -1265,6 +1233,24 @@ fn run_inner(args: &Args, out: &mut Out) {
             texts += 1;
         }
     }
+    // (1b) every decimal exponent a double can need, in every spelling of the exponent part (a conversion that
+    //      mishandles one exponent value or one sign spelling must be hit in the quick tier)
+    for e in -345i64..=325 {
+        let d = rng.range(1, 9);
+        let f = rng.range(0, 999);
+        let mut forms = vec![format!("{}e{}", d, e), format!("{}.{}E{}", d, f, e)];
+        if e >= 0 {
+            forms.push(format!("{}e+{}", d, e));
+            forms.push(format!("{}.{:03}E+{}{}", d, f, e, rng.pick(FLOAT_SUFFIX)));
+        } else {
+            forms.push(format!("{}.{}e{}{}", d, f, e, rng.pick(FLOAT_SUFFIX)));
+        }
+        for t in forms {
+            emit(&t, &plain, out, &mut hist);
+            texts += 1;
+        }
+        hist.add("float.exponent_sweep");
+    }
     hist.add("phase.exhaustive_done");
     // (2) random token soups with arbitrary trivia
     let n_text = args.n.unwrap_or(if args.thorough() { 300_000 } else { 20_000 });
@@ -1304,21 +1290,9 @@ fn run_inner(args: &Args, out: &mut Out) {
         emit(&s, &Flags { trail: true, inc: false, base: 0 }, out, &mut hist);
         texts += 1;
     }
-    // (4) literals through the whole compiler: the value must appear unchanged in the emitted HLSL
-    //     (suffixes l / ul are left out: 64-bit integer constants are `unimplemented!` in ir_types.rs)
-    let n_emit = if args.thorough() { 40_000 } else { 1_500 };
-    let n_emit = args.n.map(|n| n / 8).unwrap_or(n_emit);
-    let mut emitted = 0u64;
-    while emitted < n_emit {
-        let lit = if emitted % 2 == 0 { gen_int(&mut rng, &mut hist) } else { gen_float(&mut rng, &mut hist) };
-        let low = lit.to_ascii_lowercase();
-        if !low.starts_with("0x") && (low.ends_with('l') && !low.contains('.') && !low.contains('e')) || low.ends_with("ul") || low.ends_with("lu") || (low.starts_with("0x") && low.ends_with('l')) {
-            continue;
-        }
-        emitted += 1;
-        let (obs, orc) = run_emit("-", &lit);
-        hist.add(if orc.starts_with("SKIP") { "emit.rejected" } else { "emit.compiled" });
-        out.case(&format!("C10.emit\t-\t{}", lit), &obs, &orc);
-    }
-    out.stat(&format!("{{\"texts\":{},\"emitted\":{},\"hist\":{}}}", texts, emitted, hist.json()));
+    // (4), (5) literals through the whole compiler and through the formatter alone
+    let (emitted, formatted) = emitx::generate(args, &mut rng, out, &mut hist);
+    // (6) multi-file inputs: spans of tokens from included files, macro bodies, defines and `##` results
+    let files_cases = filesx::generate(args, &mut rng, out, &mut hist);
+    out.stat(&format!("{{\"texts\":{},\"emitted\":{},\"formatted\":{},\"multi_file\":{},\"hist\":{}}}", texts, emitted, formatted, files_cases, hist.json()));
 }
